@@ -16,7 +16,7 @@ REQUIRED_COUNTERS = ["queries.memory", "queries.sqlite", "queries.peewee", "quer
 RULE = ("generated programs biased towards in-place mutators (categorize, tag, split_url_events, period_union, flood, "
         "chunk_events_by_key, merge_events_by_keys), a third of them made to raise midway (unknown function after a "
         "mutating call, unknown bucket, wrong type), run through aw_query.query against a store of each backend "
-        "holding three populated buckets (a few events with negative durations, identical twins and a day-long event among them; minutes of data, or - 3 of the 15 workers - one bucket of ~2700 events nearly half of which start at the same instant as their neighbour, or - 6 of the 15 workers - most of a year of 6-24 h events, so that windows span weeks and months), with windows of any UTC offset (whole data range, partial, zero-width, "
+        "holding three populated buckets (a few events with negative durations, identical twins and a day-long event among them; minutes of data - for 3 of the 15 workers around the present moment of the run, some events stamped ahead of the clock -, or - 3 of the 15 workers - one bucket of ~2700 events nearly half of which start at the same instant as their neighbour, or - 6 of the 15 workers - most of a year of 6-24 h events, so that windows span weeks and months), with windows of any UTC offset (whole data range, partial, zero-width, "
         "outside all data, sub-second edges), with an occasional direct write to a bucket between two queries; before/after each query every bucket is dumped (events + metadata) and "
         "compared; every query_bucket / query_bucket_eventcount result recorded at the registry is compared with a "
         "direct windowed read / count of the same bucket over the query's own instants; non-trivial = the program "
@@ -34,9 +34,9 @@ def plan(tier):
 
 
 def setup(ctx):
-    # workers 0-2, 6-8: a few minutes of data; workers 3-5, 9-11: most of a year (windows of weeks and months);
+    # workers 0-2: a few minutes of data in 2020; workers 6-8: a few minutes of data around the present moment; workers 3-5, 9-11: most of a year (windows of weeks and months);
     # workers 12-14: one bucket of ~2700 events, nearly half of them starting at the instant of their neighbour
-    _ensure(ctx, BACKENDS[ctx.widx % 3], f"c12-data-{ctx.seed}-{ctx.widx}" + ("-big" if ctx.widx >= 12 else "-long" if (ctx.widx // 3) % 2 else ""))
+    _ensure(ctx, BACKENDS[ctx.widx % 3], f"c12-data-{ctx.seed}-{ctx.widx}" + ("-big" if ctx.widx >= 12 else "-long" if (ctx.widx // 3) % 2 else "-now" if ctx.widx >= 6 else ""))
 
 
 def _ensure(ctx, backend, data_key):
@@ -49,11 +49,17 @@ def _ensure(ctx, backend, data_key):
         _S["reg"] = qlang.Registry()
         _S["reg"].keep_results_of = {"query_bucket", "query_bucket_eventcount"}
     st = Store(backend, ctx.tmp)
-    lo, hi = qlang.populate(st.ds, random.Random(data_key), 1_600_000_000_000_000, long_range=data_key.endswith("-long"), odd_events=True,
+    base = 1_600_000_000_000_000
+    if data_key.endswith("-now"):
+        # the data lies around the present moment of THIS process (a replay rebuilds it around its own): events of the last
+        # minutes and events stamped a little ahead of the clock, windows that contain "now"
+        import time
+        base = int(time.time()) * 10**6 - 120 * 10**6
+    lo, hi = qlang.populate(st.ds, random.Random(data_key), base, long_range=data_key.endswith("-long"), odd_events=True,
                              big=data_key.endswith("-big"))
     dump = dump_store(st.ds)
     ends = sorted({t[1] + t[2] for _, evs in dump.values() for t in evs})
-    _S.update(st=st, lo=lo, hi=hi, backend=backend, dump=dump, key=(backend, data_key), ends=ends)
+    _S.update(st=st, lo=lo, hi=hi, backend=backend, dump=dump, key=(backend, data_key), ends=ends, base=base)
 
 
 def teardown(ctx):
@@ -108,13 +114,17 @@ def gen_case(rng, ctx):
         write = dict(bucket=rng.choice(qlang.BUCKETS), ts=lo + rng.randrange(span) // 1000 * 1000, dur=rng.randrange(0, 30) * 10**6,
                      data={"app": "late", "title": "written between queries", "n": rng.randrange(10**6)})
     return dict(prog=prog, ws=ws, wo=rand_offset(rng), we=we, eo=rand_offset(rng), wcls=wcls, fail=fail, write=write,
-                spacing_seed=rng.randrange(2**32), backend=_S["backend"], data_key=_S["key"][1])
+                spacing_seed=rng.randrange(2**32), backend=_S["backend"], data_key=_S["key"][1], base=_S["base"])
 
 
 def run_case(case, ctx):
     import aw_query
     _ensure(ctx, case["backend"], case["data_key"])
     reg, ds, backend = _S["reg"], _S["st"].ds, _S["backend"]
+    shift = _S["base"] - case.get("base", _S["base"])      # (a replay of a case whose data lies around "now")
+    if shift:
+        case = dict(case, ws=case["ws"] + shift, we=case["we"] + shift, base=_S["base"],
+                    write=dict(case["write"], ts=case["write"]["ts"] + shift) if case.get("write") else None)
     start, end = mk_dt(case["ws"], case["wo"]), mk_dt(case["we"], case["eo"])
     text = qlang.render_program(case["prog"], qlang.Spacing(random.Random(case["spacing_seed"])))
     if case.get("write"):
